@@ -71,3 +71,25 @@ Example ex_memoised_copy_scales_twice :
   | None => None
   end = Some (Some (10, 4)%Z).
 Proof. reflexivity. Qed.
+
+(* Purity of align.  In the model, [align] is a Gallina FUNCTION of the values of origin / x_axis / plane / bs (and of the
+   optimiser, itself a function of the sample values): calling it again with containers that hold new contents is by
+   construction the call on the new contents (C16_align_is_one_rigid_motion and C16_converged_answer_recovers_ground_truth
+   speak about exactly the values handed over in that call).  What an IDENTITY-keyed memo does instead, on the heap
+   model: the cache is keyed by the address of the argument, the array at that address is refilled in place, the second
+   call answers with the first call's contents. *)
+Definition memo_read (memo : option (nat * Z)) (h : heap Z) (addr : nat) : option Z * option (nat * Z) :=
+  match memo with
+  | Some (a, v) => if Nat.eqb a addr then (Some v, memo)                 (* same object: cached value *)
+                   else (nth_error (arrs h) addr, option_map (fun v' => (addr, v')) (nth_error (arrs h) addr))
+  | None => (nth_error (arrs h) addr, option_map (fun v' => (addr, v')) (nth_error (arrs h) addr))
+  end.
+Definition pure_read (h : heap Z) (addr : nat) : option Z := nth_error (arrs h) addr.
+
+Example ex_identity_keyed_memo_is_stale :
+  let h1 := MkHeap [5]%Z [] in              (* first call: the points buffer holds 5 *)
+  let h2 := MkHeap [7]%Z [] in              (* the SAME buffer (address 0) refilled in place with 7 *)
+  let '(r1, m1) := memo_read None h1 0 in
+  let '(r2, _) := memo_read m1 h2 0 in
+  r1 = Some 5%Z /\ r2 = Some 5%Z /\ pure_read h2 0 = Some 7%Z /\ r2 <> pure_read h2 0.
+Proof. cbn. repeat split; try reflexivity. discriminate. Qed.
